@@ -103,6 +103,7 @@ class Tr:
     def __init__(self, fn, fns, spec):
         self.fn, self.fns, self.spec = fn, fns, spec
         self.n = 0
+        self.btypes = {}  # types of variables first defined inside both branches of an `if`
 
     def fresh(self, base="t"):
         self.n += 1
@@ -124,7 +125,7 @@ class Tr:
         if isinstance(n, ast.Name):
             if n.id not in env:
                 raise TranslateError(f"{self.fn.node.name}: name `{n.id}` is not defined here")
-            if env[n.id] in ("f", "af"):
+            if env[n.id] == "af" or (env[n.id] == "f" and not self.spec.get("floats")):
                 raise TranslateError(f"{self.fn.node.name}: float value `{n.id}` used outside an extern call")
             return n.id
         if isinstance(n, ast.Subscript):
@@ -148,6 +149,18 @@ class Tr:
             name = n.func.id if isinstance(n.func, ast.Name) else (n.func.attr if isinstance(n.func, ast.Attribute) else None)
             if name in INT_CASTS and len(n.args) == 1:
                 return self.expr(n.args[0], env)
+            fx = self.spec.get("floats", {}).get(ast.unparse(n.func))
+            if fx is not None:
+                # declared float-world call: becomes a parameter of the generated definition, applied to the listed argument positions
+                pname, argpos, _ty = fx
+                if pname not in self.fn.externs:
+                    self.fn.externs.append(pname)
+                return "(" + " ".join([pname] + [self.atom(n.args[i], env) for i in argpos]) + ")" if argpos else pname
+            if name == "float64" and len(n.args) == 1 and self.spec.get("floats"):
+                inner = n.args[0]
+                if self.etype(inner, env) == "f":
+                    return self.expr(inner, env)
+                return f"(ofNat {self.atom(inner, env)})"
             if name in ("min", "max") and len(n.args) == 2:
                 return f"({name} {self.atom(n.args[0], env)} {self.atom(n.args[1], env)})"
             if name == "len" and len(n.args) == 1 and isinstance(n.args[0], ast.Name) and env.get(n.args[0].id) == "key":
@@ -163,6 +176,13 @@ class Tr:
                 return "(" + self.call(callee, n, env) + ")"
             raise TranslateError(f"unsupported call `{ast.unparse(n)}`")
         if isinstance(n, ast.BinOp) and type(n.op) in BINOPS:
+            lt, rt = self.etype(n.left, env), self.etype(n.right, env)
+            if "f" in (lt, rt):
+                if not isinstance(n.op, (ast.Add, ast.Sub, ast.Mult)):
+                    raise TranslateError(f"unsupported float operation `{ast.unparse(n)}`")
+                l = self.expr(n.left, env) if lt == "f" else f"(ofNat {self.atom(n.left, env)})"
+                r = self.expr(n.right, env) if rt == "f" else f"(ofNat {self.atom(n.right, env)})"
+                return f"({l} {BINOPS[type(n.op)]} {r})"
             return f"({self.expr(n.left, env)} {BINOPS[type(n.op)]} {self.expr(n.right, env)})"
         raise TranslateError(f"unsupported expression `{ast.unparse(n)}`")
 
@@ -186,6 +206,15 @@ class Tr:
             return "bool"
         if isinstance(n, ast.Call) and ast.unparse(n.func) == "np.all":
             return "bool"
+        if self.spec.get("floats"):
+            if isinstance(n, ast.Call):
+                fx = self.spec["floats"].get(ast.unparse(n.func))
+                if fx is not None:
+                    return fx[2]
+                if ast.unparse(n.func) == "float64":
+                    return "f"
+            if isinstance(n, ast.BinOp) and "f" in (self.etype(n.left, env), self.etype(n.right, env)):
+                return "f"
         return "nat"
 
     def call(self, callee, n, env):
@@ -222,7 +251,11 @@ class Tr:
                 raise TranslateError(f"np.all over something that is not a key-byte array: `{ast.unparse(n)}`")
             return f"({self.expr(l, env)} = {self.expr(r, env)})"
         if isinstance(n, ast.Compare) and len(n.ops) == 1 and type(n.ops[0]) in CMPOPS:
-            return f"({self.expr(n.left, env)} {CMPOPS[type(n.ops[0])]} {self.expr(n.comparators[0], env)})"
+            l, r = n.left, n.comparators[0]
+            lt, rt = self.etype(l, env), self.etype(r, env)
+            le = self.expr(l, env) if (lt == rt or lt == "f") else f"(ofNat {self.atom(l, env)})"
+            re_ = self.expr(r, env) if (lt == rt or rt == "f") else f"(ofNat {self.atom(r, env)})"
+            return f"({le} {CMPOPS[type(n.ops[0])]} {re_})"
         raise TranslateError(f"unsupported test `{ast.unparse(n)}`")
 
     # ------------------------------------------------------------------ statements
@@ -272,6 +305,21 @@ class Tr:
                         add(a.id)
 
         walk(stmts)
+        return out
+
+    @staticmethod
+    def definitely(stmts):
+        """names assigned on EVERY path through a statement list (no loops considered)"""
+        out = set()
+        for s_ in stmts:
+            if isinstance(s_, ast.Assign):
+                for t in s_.targets:
+                    if isinstance(t, ast.Name):
+                        out.add(t.id)
+                    elif isinstance(t, ast.Tuple):
+                        out |= {e.id for e in t.elts if isinstance(e, ast.Name)}
+            elif isinstance(s_, ast.If):
+                out |= Tr.definitely(s_.body) & Tr.definitely(s_.orelse)
         return out
 
     def tup(self, names):
@@ -395,12 +443,13 @@ class Tr:
                     b = self.block(list(s.orelse) + rest, env, ind + "  ")
                     return code + f"{ind}if {c} then\n{a}{ind}else\n{b}"
                 a_set, b_set = self.assigned(s.body), self.assigned(s.orelse)
-                mods = [x for x in a_set + [y for y in b_set if y not in a_set] if x in env or (x in a_set and x in b_set)]
+                both = self.definitely(s.body) & self.definitely(s.orelse)
+                mods = [x for x in a_set + [y for y in b_set if y not in a_set] if x in env or x in both]
                 if not mods:
                     raise TranslateError(f"`if {ast.unparse(s.test)}` has no effect on live variables")
                 c = self.test(s.test, env)
                 for x in mods:
-                    if x not in env and not (x in a_set and x in b_set):
+                    if x not in env and x not in both:
                         raise TranslateError(f"variable `{x}` is defined in one branch only")
                 a = self.block(s.body, env, ind + "    ", outs=mods)
                 b = self.block(s.orelse, env, ind + "    ", outs=mods)
@@ -408,7 +457,7 @@ class Tr:
                 code += f"{ind}let {tmp} :=\n{ind}  if {c} then\n{a}{ind}  else\n{b}" + self.bind(mods, tmp, ind)
                 for x in mods:
                     if x not in env:
-                        env[x] = "nat"
+                        env[x] = self.btypes.get(x, "nat")
             elif isinstance(s, ast.For):
                 it = s.iter
                 if not (isinstance(s.target, ast.Name) and isinstance(it, ast.Call) and isinstance(it.func, ast.Name)
@@ -436,6 +485,7 @@ class Tr:
         for x in outs:
             if x not in env:
                 raise TranslateError(f"variable `{x}` is not defined at the end of a branch")
+            self.btypes[x] = env[x]
         return code + ind + self.tup(outs) + "\n"
 
     def mut_args(self, callee, call):
@@ -468,6 +518,9 @@ KERNELS2 = [
     ("hyperloglog", "_add", "hll_add", {"drop_return_none": True}),
     ("hyperloglog", "_add_ngram", "hll_add_ngram", {}),
     ("hyperloglog", "_merge", "hll_merge", {}),
+    ("hyperloglog", "_query", "hll_query", {"floats": {"np.count_nonzero": ("count_nonzero", [], "nat"), "_linear_counting": ("linear_counting", [0, 1], "f"),
+                                                       "_estimation_function": ("estimation_function", [], "f"), "np.interp": ("interp", [0], "f")},
+                                            "keep_float_params": False}),
     ("countmin", "_query_linear", "query_linear", {}),
     ("countmin", "_add_linear", "add_linear", {}),
     ("countmin", "_add_ngram_linear", "add_ngram_linear", {}),
@@ -488,14 +541,16 @@ KERNELS2 = [
 ]
 
 GROUPS2 = {
-    "FullHll": ["n_leading_zeros64", "hll_add", "hll_add_ngram", "hll_merge"],
+    "FullHll": ["n_leading_zeros64", "hll_add", "hll_add_ngram", "hll_merge", "hll_query"],
     "FullLin": ["query_linear", "add_linear", "add_ngram_linear", "merge_linear"],
     "FullLog": ["query_log16", "add_log16", "add_ngram_log16", "query_log8", "add_log8", "add_ngram_log8"],
     "FullHH": ["hh_add", "hh_add_ngram", "hh_merge", "hh_max_count"],
 }
 
-EXTERN_TY = {"log_counter": "Nat → Nat → Nat → Nat × Nat"}
-EXTERN_DOC = {"log_counter": "`log_counter counter rand_ptr value` stands for `_log_counter(counter, num_reserved, uint_maxval, base, rand_nums, rand_ptr, value)` "
+EXTERN_TY = {"log_counter": "Nat → Nat → Nat → Nat × Nat", "count_nonzero": "Nat", "linear_counting": "Nat → Nat → α", "estimation_function": "α", "interp": "α → α"}
+EXTERN_DOC = {"count_nonzero": "`count_nonzero` = `np.count_nonzero(registers)`", "linear_counting": "`linear_counting m n_zero` = `_linear_counting(m, n_zero)`",
+              "estimation_function": "`estimation_function` = `_estimation_function(registers, m, alpha)`", "interp": "`interp x` = `np.interp(x, raw_estimate, bias_data)`",
+              "log_counter": "`log_counter counter rand_ptr value` stands for `_log_counter(counter, num_reserved, uint_maxval, base, rand_nums, rand_ptr, value)` "
                              "(float arithmetic inside; its loop body is translated separately as `Src.logCounterStep`)"}
 
 
@@ -520,13 +575,13 @@ def _mutated_of(fn, fns):
     return [n for n, _ in fn.params if n in hit]
 
 
-def translate_all():
-    """returns ({lean name: text}, [errors])"""
+def translate_all(_collect=None):
+    """returns ({lean name: text}, [errors]); `_collect` (a dict) receives {module: {python name: Fn}} for methods.py"""
     out, errors = {}, []
     trees = {}
     for mod in ("hyperloglog", "countmin", "heavyhitters"):
         trees[mod] = _parse(os.path.join(REPO, "sketchnu", mod + ".py"))[1]
-    by_mod = {}  # module -> {python name: Fn}
+    by_mod = _collect if _collect is not None else {}  # module -> {python name: Fn}
     for mod, pyname, lean, spec in KERNELS2:
         fns = by_mod.setdefault(mod, {})
         try:
@@ -558,15 +613,20 @@ def translate_all():
                 stmts = stmts[:-1]
             body = pre + tr.block(stmts, env, "  ")
             args = ""
+            if spec.get("floats"):
+                args += " {α : Type} [LT α] [LE α] [Sub α] [DecidableLT α] [DecidableLE α] (ofNat : Nat → α)"
             if fn.uses_ko:
                 args += " {K B : Type} [DecidableEq B] (ko : Rt.KeyOps K B)"
             elif any(t == "a3" for _, t in fn.params):
                 args += " {B : Type} [DecidableEq B]"
             for x in fn.externs:
                 args += f" ({x} : {EXTERN_TY[x]})"
+            used = {x.id for x in ast.walk(node) if isinstance(x, ast.Name)}
             for n, t in fn.params:
                 if t in ("f", "af"):
                     continue
+                if spec.get("floats") and t in ("a1", "a2", "a3"):
+                    continue  # arrays of a float kernel are only read through the declared float-world calls
                 args += f" ({n} : {LEAN_TY[t]})"
             res = ", ".join(["the return value"] * (1 if len(fn.ret) == 1 else 0) + [f"`{m}`" for m in fn.mutated]) or "the return values"
             if len(fn.ret) > 1:
